@@ -109,7 +109,50 @@ func (w *world) name(src string) string { return instantiate(src, w.sfx) }
 // instantiate replaces the name marker @ by a prefix; ,% in case texts is the
 // comma-at of macro templates (written that way because @ is the marker).
 func instantiate(src, prefix string) string {
+	if qualOn {
+		src = qualify(src)
+	}
 	return strings.ReplaceAll(strings.ReplaceAll(src, "@", prefix), ",%", ",@")
+}
+
+// qualOn: the case under execution writes part of its calls package
+// qualified (Case.Qual). A qualified name means the same function as the bare
+// one: cl:+ is +, cl-user:f is the f of the user package, whether the call
+// is evaluated from the list form, compiled, or compiled before f exists.
+var qualOn bool
+
+var qualOps = map[string]bool{"+": true, "-": true, "*": true, "1+": true, "1-": true, "list": true, "cons": true, "length": true,
+	"append": true, "reverse": true, "zerop": true, "null": true, "not": true, "=": true, "<": true, ">": true, "<=": true, ">=": true}
+
+// qualify rewrites, deterministically, about a third of the operator
+// positions that hold an ordinary CL function (-> cl:op or common-lisp:op)
+// or a function of the program (@fN -> cl-user:@fN). Special forms, macros
+// of the program, quoted lists and #'f are left alone.
+func qualify(src string) string {
+	var b strings.Builder
+	n := uint32(len(src))
+	for i := 0; i < len(src); i++ {
+		b.WriteByte(src[i])
+		if src[i] != '(' || 0 < i && (src[i-1] == '\'' || src[i-1] == '`') {
+			continue
+		}
+		j := i + 1
+		for j < len(src) && src[j] != ' ' && src[j] != ')' && src[j] != '(' {
+			j++
+		}
+		op := src[i+1 : j]
+		n = n*2654435761 + uint32(j)
+		if n>>8%3 != 0 {
+			continue
+		}
+		switch {
+		case qualOps[op]:
+			b.WriteString([]string{"cl:", "common-lisp:"}[n>>12%2])
+		case strings.HasPrefix(op, "@f") && 2 < len(op) && '0' <= op[2] && op[2] <= '9':
+			b.WriteString([]string{"cl-user:", "common-lisp-user:", "cl-user::"}[n>>12%3])
+		}
+	}
+	return b.String()
 }
 
 // parse reads case text for the reference evaluator (names get the prefix r_).
@@ -353,7 +396,18 @@ func genC(r *rand.Rand, i int, tier string) Case {
 	i /= 2
 	noargs := i%6 == 0
 	multi := i%2 == 1
-	return genCase(r, noargs, multi)
+	c := genCase(r, noargs, multi)
+	c.Qual = i%5 == 2
+	return c
+}
+
+// every fixed probe program is also run with package qualified calls
+func init() {
+	n := len(probes)
+	for _, p := range probes[:n] {
+		p.Qual = true
+		probes = append(probes, p)
+	}
 }
 
 // probes are fixed cases at the start of every case list: one minimal
@@ -554,6 +608,19 @@ func exec(x *fw.Ctx, c Case) {
 		execReeval(x, c)
 		return
 	}
+	qualOn = c.Qual
+	defer func() { qualOn = false }()
+	if c.Qual {
+		x.Cover("program:with-package-qualified-calls")
+		q := qualify(c.Main)
+		for _, fn := range c.Fns {
+			for _, v := range fn.Vers {
+				q += qualify(v.Body)
+			}
+		}
+		x.CoverN("package-qualified-call-sites:builtin", strings.Count(q, "(cl:")+strings.Count(q, "(common-lisp:"))
+		x.CoverN("package-qualified-call-sites:program-function", strings.Count(q, "(cl-user:")+strings.Count(q, "(common-lisp-user:"))
+	}
 	n := len(c.Fns)
 	mainNode := parse(c.Main)[0]
 	x.Cover("kind:" + c.Kind)
@@ -715,6 +782,9 @@ func exec(x *fw.Ctx, c Case) {
 		}
 		if quotedCode {
 			cell = "quoted-code=y " + cell
+		}
+		if c.Qual {
+			cell = "qualified=y " + cell
 		}
 		x.Cover("evals: " + cell)
 		kind, detail := judge(o, w)
